@@ -165,6 +165,20 @@ Proof.
 Qed.
 Print Assumptions c09_line_witnesses.
 
+(* KNOWN DEFECT lazy-samples-dropped-format-missing: lazy = eager fails on a written line -- samples
+   without FORMAT keys are written ". . ."; the eager reader returns the two samples, the lazy
+   record none (Fields::samples collapses a FORMAT "." column) *)
+Theorem c09_lazy_ne_eager_format_missing_refuted :
+  exists h r t re rl, write_line w_fmt h r = Some t /\
+    read_eager w_prs h t = Some re /\ read_lazy w_prs h t = Some rl /\
+    re = r /\ length (r_samples re) = 2%nat /\ r_samples rl = [].
+Proof.
+  destruct witness_format_missing as (t & A & B & C).
+  eexists; eexists; exists t; eexists; eexists.
+  split; [exact A|]. split; [exact B|]. split; [exact C|]. repeat split.
+Qed.
+Print Assumptions c09_lazy_ne_eager_format_missing_refuted.
+
 (* FORMER DEFECT lazy-record-cr-before-empty-last-column-panic (repaired, fb10cd9): a line whose INFO
    column ends with CR and is followed by TAB LF made the lazy record's accessors panic.  The
    model of the repaired reader has no such outcome for any text (read_lazy_text is total into
